@@ -90,6 +90,8 @@ type handle struct {
 	qids     []int
 	notify   chan struct{}
 	deadline time.Time
+	spinDl   time.Time // the deadline past which reads keep being issued
+	spin     int
 	filter   []bpf.Instruction
 	sackDone bool
 	ftype    int
@@ -121,6 +123,7 @@ type Wire struct {
 	OnProbe                      func(v pkt.View)
 	ownerless                    []byte
 	FloodArrived, FloodDelivered int
+	Spun                         bool // a capture handle was read 3000 times past one deadline: the code under test was in a busy loop
 	Millis                       bool
 	seeded                       bool
 	floodOn                      bool
@@ -840,7 +843,24 @@ func (s *source) Read(buf []byte) (int, error) {
 		// really not readable... never: it would have been read above)
 		dl := s.deadline
 		if !dl.IsZero() && time.Until(dl) <= 0 {
-			w.log("Deadline", "h", s.id, "run", s.run)
+			// a caller that keeps reading past ONE deadline without ever setting a new one is in a busy loop (nothing can ever
+			// arrive for it): after 3000 such reads the harness ends the loop with a fatal error and marks the scenario as spun
+			if s.spinDl.Equal(dl) {
+				s.spin++
+			} else {
+				s.spinDl, s.spin = dl, 0
+			}
+			if s.spin > 3000 {
+				if !w.Spun {
+					w.log("Spin", "h", s.id, "run", s.run)
+				}
+				w.Spun = true
+				w.mu.Unlock()
+				return 0, errors.New("harness: busy loop - 3000 reads past one read deadline")
+			}
+			if s.spin < 20 {
+				w.log("Deadline", "h", s.id, "run", s.run)
+			}
 			w.mu.Unlock()
 			return 0, errDeadline
 		}
